@@ -218,7 +218,7 @@ def search(ctx, seeds, full=False):
         check_image(ctx, ext, c05_family(ext, rng, ctx.quick, False), fails)
         if len(fails) >= 5:
             return fails
-    rounds = (2 if full else 1) if ctx.quick else (3 if full else 2)
+    rounds = (2 if full else 1) if ctx.quick else (5 if full else 4)
     for _ in range(rounds):
         for img in c05_images(ctx, rng, for_search=True):
             ctx.count('search/' + '/'.join(img.tag.split('/')[:2]))
